@@ -214,10 +214,19 @@ pub fn key_strategy(kt: Kt, p: KeyProfile) -> BoxedStrategy<Key> {
                 }
             })
             .boxed(),
-        Kt::String => (key_len_strategy(p), 0u32..1000)
-            .prop_map(|(len, seed)| {
+        // DbString wraps a byte vector (From<&[u8]> / From<Vec<u8>> are public): mostly ASCII text,
+        // every 5th key arbitrary bytes (invalid UTF-8), every 10th multi-byte text
+        Kt::String => (key_len_strategy(p), 0u32..1000, 0u8..10)
+            .prop_map(|(len, seed, form)| {
                 if len == 0 {
                     Key::B(vec![])
+                } else if form < 2 && len <= 4096 {
+                    Key::P { len, seed }
+                } else if form == 2 && len <= 4096 {
+                    let chars = ['é', 'ß', '語', '𝄞', 'a', 'Ж'];
+                    let raw = pattern_bytes(len as usize, seed);
+                    let t: String = raw.iter().map(|b| chars[*b as usize % chars.len()]).collect();
+                    Key::B(t.into_bytes())
                 } else {
                     Key::S { len, seed }
                 }
@@ -417,6 +426,21 @@ pub fn size_bounds(keys: &[Key], ops: &[Op]) -> (u64, u64) {
                     kb += kslot * 2;
                 }
             }
+            Op::PutFromOwnIter { .. } => {
+                let maxv = ops
+                    .iter()
+                    .map(|op| match op {
+                        Op::Put { v, .. } | Op::PutStr { v, .. } | Op::Burst { v, .. } => v.len(),
+                        Op::BulkPut { kvs } | Op::BulkPutStr { kvs } | Op::PutFromIter { kvs } => {
+                            kvs.iter().map(|kv| kv.1.len()).max().unwrap_or(0)
+                        }
+                        Op::PutFromOwnIter { .. } => 40,
+                        _ => 0,
+                    })
+                    .fold((0usize, 0usize), |(m, g), l| if l == 40 { (m, g + 40) } else { (m.max(l), g) });
+                vb += vslot(maxv.0 + maxv.1) * keys.len() as u64;
+                kb += kslot * 2 * keys.len() as u64;
+            }
             Op::Del { .. } | Op::DelStr { .. } => kb += kslot,
             Op::BulkDel { ks } | Op::BulkDelStr { ks } => kb += kslot * ks.len() as u64,
             _ => {}
@@ -615,6 +639,7 @@ pub fn op_strategy(cfg: &OpsCfg, n_keys: usize, default_params: Params) -> Boxed
                 3 => kvs().prop_map(|kvs| Op::BulkPut { kvs }),
                 2 => kvs_text().prop_map(|kvs| Op::BulkPutStr { kvs }),
                 3 => kvs().prop_map(|kvs| Op::PutFromIter { kvs }),
+                1 => (0u8..16).prop_map(|t| Op::PutFromOwnIter { t }),
             ]
             .boxed(),
         ));
@@ -653,6 +678,7 @@ pub fn op_strategy(cfg: &OpsCfg, n_keys: usize, default_params: Params) -> Boxed
                 1 => Just(Op::DropHandle),
                 1 => Just(Op::DropAll),
                 2 => Just(Op::Reacquire),
+                2 => (0u8..32).prop_map(|v| Op::ReacquireP { v }),
                 1 => Just(Op::CloneDb),
                 4 => (0..nm).prop_map(|m| Op::Use { m }),
             ]
